@@ -180,10 +180,12 @@ def generate_common_js_code(script: Script) -> str:
         if not first_function:
             code += "\n"
         
-        if f.name == 'new':
-            f.name = 'birth'
+        fname: str = f.name
+        if fname == 'new':
+            # rename in the generated text only, the AST keeps the handler name
+            fname = 'birth'
         
-        code = code + vsprintf("function %s(", f.name)
+        code = code + vsprintf("function %s(", fname)
         if len(f.parameters) > 0:
             params: List[str] = []
             for n in f.parameters:
